@@ -14,6 +14,8 @@ CONSTANTS
   OwnerClasses = {"user"}
   MtimeClasses = {"t2001"}
   XattrClasses = {"none"}
+  LinkKinds = {"reg", "lnk", "chr", "blk", "fifo", "sock"}
+  PopLinkTypes = {"reg", "lnk", "chr", "blk", "fifo", "sock"}
   DevModeMask777 = FALSE
   DevHardlinkByInoOnly = FALSE
   DevHoleAsZeros = FALSE
